@@ -58,15 +58,63 @@ def observe(sql, dialect="ansi", provider=None, silent=False, level="full", verb
                 out["pairs"] = [list(x) for x in out["pairs"]]
                 out["paths"] = sorted([col_str(c, anon) for c in p] for p in paths)
             if level == "full":
-                out["cyto_table"] = r.to_cytoscape()
                 from sqllineage.utils.constant import LineageLevel
 
-                out["cyto_column"] = [_anon_deep(x, anon) for x in r.to_cytoscape(LineageLevel.COLUMN)]
+                out["cyto_table"] = cyto_canon(r.to_cytoscape())
+                out["cyto_column"] = cyto_canon([_anon_deep(x, anon) for x in r.to_cytoscape(LineageLevel.COLUMN)])
                 out["summary"] = anon(str(r))
         except Exception as e:  # noqa - the outcome of the analysis
             out = exc_record(e)
+    out = canon_anon(out)
     out["warnings"] = sorted({f"{x.category.__name__}: {str(x.message)[:120]}" for x in w if x.category is not DeprecationWarning})
     return out
+
+
+def cyto_canon(lst):
+    """export normal form (DESIGN.md section 3): set of node records, multiset of (source, target) edges; the order of
+    the list and the synthetic edge ids e<i> are presentation"""
+    nodes = [d["data"] for d in lst if "source" not in d["data"]]
+    edges = [[d["data"]["source"], d["data"]["target"]] for d in lst if "source" in d["data"]]
+    return {"nodes": nodes, "edges": edges}
+
+
+def _cyto_sort(c):
+    import json
+
+    return {"nodes": sorted(c["nodes"], key=lambda n: json.dumps(n, sort_keys=True)), "edges": sorted(c["edges"])}
+
+
+def canon_anon(out: dict) -> dict:
+    """anonymous subquery names are generated from a hash of the subquery text: rename them canonically - the
+    assignment of subquery#i that gives the smallest serialisation, so that the naming depends on the structure
+    of the result and on nothing else (all k! assignments tried for k <= 5)"""
+    import itertools
+    import json
+
+    dump = json.dumps(out, sort_keys=True)
+    names = sorted(set(re.findall(r"subquery#\d+", dump)))
+    if not names or len(names) > 5:
+        return _resort(out)
+    best = None
+    for perm in itertools.permutations(range(len(names))):
+        m = {n: f"subquery@{perm[i]}" for i, n in enumerate(names)}
+        d = re.sub(r"subquery#\d+", lambda mo: m[mo.group(0)], dump)
+        # lists that the runner sorts by printed name must be re-sorted under the new names
+        cand = _resort(json.loads(d))
+        key = json.dumps(cand, sort_keys=True)
+        if best is None or key < best[0]:
+            best = (key, cand)
+    return json.loads(best[0].replace("subquery@", "subquery#"))
+
+
+def _resort(o: dict) -> dict:
+    for k in ("pairs", "paths"):
+        if k in o:
+            o[k] = sorted(o[k])
+    for k in ("cyto_table", "cyto_column"):
+        if k in o:
+            o[k] = _cyto_sort(o[k])
+    return o
 
 
 def _anon_deep(x, anon):
